@@ -139,6 +139,8 @@ class Real:
         self.busy = False
         self.runs = 1
         self.run_ends = []
+        self.run_start_given = 0
+        self.stop_in_run = False
         real = self
 
         self.url_src = None
@@ -305,6 +307,7 @@ class Real:
         """Perform one action; returns False if it is not possible on the real side."""
         if a == 'S':
             self.stop_called = True
+            self.stop_in_run = True
             self.all_log.append(('stop',))
             self.pipeline.stop()
         elif a[0] == 'C':
@@ -329,7 +332,11 @@ class Real:
             self.snapshot_end()
             self.all_log.append(('restart',))
             self.runs += 1
-            self.pipeline.concurrency = int(a[1:])
+            kk, _, mm = a[1:].partition('+')
+            self.n += int(mm or 0)               # fresh items in the source for the new run
+            self.run_start_given = self.given
+            self.stop_in_run = False
+            self.pipeline.concurrency = int(kk)
             self.main = self.loop.create_task(compat._ensure(self.pipeline.process()))
             self._run_handle(self._handles().get('M'))      # the model's restart includes the first step of process()
         elif a[0] in 'TX':
@@ -355,7 +362,25 @@ class Real:
         self.run_ends.append({'run': self.runs, 'status': self.main_status(), 'lock_held': bool(cond.locked()),
                               'alive_tasks': len(alive), 'worker_tasks': len(p._worker_tasks),
                               'producer_done': p._producer_task is None or p._producer_task.done(),
-                              'in_flight': sorted(self.parked), 'state': p._state.value})
+                              'in_flight': sorted(self.parked), 'state': p._state.value,
+                              'given': self.given, 'n_total': self.n, 'given_at_start': self.run_start_given,
+                              'stop_in_run': self.stop_in_run, 'stop_before': self.stop_called,
+                              'failure': bool(self.src_raised or self.task_raised),
+                              'queued_items': len([e for e in p._item_queue._queue._queue if e[2] is not self._pill()]),
+                              'complete': sorted(self._complete())})
+
+    def _pill(self):
+        from wpull.pipeline.pipeline import POISON_PILL
+        return POISON_PILL
+
+    def _complete(self):
+        per = {}
+        for (t, i, se) in self.log:
+            per.setdefault(i, []).append((t, se))
+        canon = [(t, se) for t in range(self.k) for se in 'se']
+        return [i for i, evs in per.items() if evs == canon]
+
+
 
     def holder_last(self, a):
         """Will completing action T<i> finish item i (its last task)?"""
@@ -469,6 +494,7 @@ def run_real(n, k, conc, src_fail, policy_or_actions, rng=None, inj=None, cont=N
         p = real.pipeline
         res = {
             'qpoints': qpoints, 'in_flight_end': sorted(real.parked), 'run_ends': list(real.run_ends),
+            'n_total': real.n,
             'actions': actions, 'steps': steps, 'bad': bad,
             'main': 'b' if bad == 'busy-loop' else real.main_status(),
             'enabled': [] if bad == 'busy-loop' else real.enabled(),
@@ -529,7 +555,7 @@ def choose_action(real, policy, rng, step_no, inj, n_inj):
 # ------------------------------------------------------------------ oracle (model-independent)
 def oracle(ctx, case, res):
     """The property's clauses on the real run."""
-    n, k = case['n'], case['k']
+    n, k = res.get('n_total', case['n']), case['k']       # the source may have been refilled between runs
     per = {}
     for (t, i, se) in res['log']:
         per.setdefault(i, []).append((t, se))
@@ -556,6 +582,17 @@ def oracle(ctx, case, res):
         if end['in_flight']:
             ctx.fail('returned-early', 'shutdown', case,
                      'run %d returned while item(s) %r were still inside a task' % (end['run'], end['in_flight']))
+        if not end.get('stop_in_run') and not end.get('failure') and 'given' in end:
+            # a run that was not stopped ends only by exhaustion: the source was polled until it had nothing left
+            # and every item it handed out in this run (every item at all, if no run was ever stopped) went through
+            # all tasks; nothing is left in the queue
+            lo = 0 if not end['stop_before'] else end['given_at_start']
+            missing = [i for i in range(lo, end['n_total']) if i not in end['complete']]
+            if end['given'] < end['n_total'] or missing or end['queued_items']:
+                ctx.fail('items-left-unprocessed', 'run', case,
+                         'run %d returned without a stop request although the source still held work: %d of %d items '
+                         'taken from the source, items %r not through all tasks, %d item(s) left in the queue'
+                         % (end['run'], end['given'], end['n_total'], missing[:8], end['queued_items']))
     hang = None
     if res['bad'] == 'busy-loop':
         hang = 'process() spins in `while running: event.wait()` without ever yielding (event loop frozen)'
@@ -809,7 +846,8 @@ def gen_second_run(ctx, rng, count):
                 st['runs'] += 1
                 st['stopped'] = True        # later runs just run (possibly paused at start)
                 c = k2 if (k2 is not None and st['runs'] == 2) else rng.choice([0, 1, 1, 2, 3])
-                return 'R%d' % c
+                m = rng.choice([0, 1, 2, 3])
+                return 'R%d+%d' % (c, m) if m else 'R%d' % c
             en = real.enabled()
             p = real.pipeline
             if not en:
@@ -983,6 +1021,7 @@ def run_free(case):
                 break
             if started and plan['stop_at'] == it:
                 real.stop_called = True
+                real.stop_in_run = True
                 real.all_log.append(('stop',))
                 real.pipeline.stop()
             if started and it in conc_at:
@@ -1244,7 +1283,7 @@ def replay(ctx, case, kind=None, where=None):
     if case.get('then_restart') is not None and res['main'] == 'r' and not any(a[0] == 'R' for a in res['actions']):
         # run 1 is complete: process() again on the same object, then run on
         res = run_real(case['n'], case['k'], case['conc'], case['src_fail'],
-                       list(res['actions']) + ['R%d' % case['then_restart']],
+                       list(res['actions']) + ['R%s' % case['then_restart']],
                        rng=random.Random(case.get('then_seed', 0) + 1), cont=case.get('then'),
                        url_source=case.get('url_source'))
     check_cases(ctx, [(base, res)], tags=['replay'])
@@ -1283,7 +1322,8 @@ def run(ctx):
     for v in sorted(set(RERUN_VARIANTS)):
         ctx.tag('second-run:' + v, len([1 for c, r in sr if r.get('variant') == v]))
     ctx.tag('second-run:runs>=2', len([1 for c, r in sr if any(a[0] == 'R' for a in r['actions'])]))
-    ctx.tag('second-run:restart-paused', len([1 for c, r in sr if 'R0' in r['actions']]))
+    ctx.tag('second-run:restart-paused', len([1 for c, r in sr if any(a == 'R0' or a.startswith('R0+') for a in r['actions'])]))
+    ctx.tag('second-run:source-refilled', len([1 for c, r in sr if any(a[0] == 'R' and '+' in a for a in r['actions'])]))
     ctx.tag('second-run:after-cancelled-producer',
             len([1 for c, r in sr if any(a[0] == 'R' for a in r['actions']) and 'S' in r['actions']]))
     # the REAL URLItemSource as the pipeline's source (check_out failures must surface)
